@@ -3,7 +3,7 @@
    table and drops every sender in it, and send_message on a closed table hands out a failed future;
    `step_legacy` = today's code, which does neither).  Proofs: Proofs/ClientFacts.v.
    See Properties/C11.v for the reading of events. *)
-Require Import DV.Base.Bytes DV.Model.Client DV.Proofs.ClientFacts.
+Require Import DV.Base.Bytes DV.Model.Client DV.Model.ClientMulti DV.Proofs.ClientFacts DV.Proofs.ClientMultiFacts.
 
 (* once the reader has stopped - for whatever reason - no future handed out so far is pending *)
 Theorem C12_reader_stop_releases_all : forall es i,
@@ -128,3 +128,25 @@ Theorem C12_cut_outcomes_example :
     [WDropped; WGot {| hop := 2%N; fid := 1 |}; WGot {| hop := 3%N; fid := 0 |}].
 Proof. exact C12_cut_outcomes_nonvacuous. Qed.
 Print Assumptions C12_cut_outcomes_example.
+
+(* several connections of one client object (Model/ClientMulti.v): release on stop holds per connection ... *)
+Theorem C12_release_per_connection : forall es c i, closed (conn (mrun es) c) = true -> i < nw (conn (mrun es) c) ->
+  ws (conn (mrun es) c) i <> WPending.
+Proof. exact multi_release. Qed.
+Print Assumptions C12_release_per_connection.
+
+(* ... a send after the CURRENT connection's reader has stopped fails, whatever earlier connections did ... *)
+Theorem C12_send_after_stop_current_connection : forall s h, cur s <> 0 -> closed (conn s (cur s)) = true ->
+  let s' := mstep s (MSend (Register h)) in
+  ws (conn s' (cur s)) (nw (conn s (cur s))) = WDropped.
+Proof. exact multi_send_after_stop. Qed.
+Print Assumptions C12_send_after_stop_current_connection.
+
+(* ... and a connect() that fails changes nothing: in particular not which closed flag send_message consults *)
+Theorem C12_failed_connect_changes_nothing : forall s, mstep s MConnectFail = s.
+Proof. exact connect_fail_changes_nothing. Qed.
+Print Assumptions C12_failed_connect_changes_nothing.
+
+Theorem C12_other_connection_changes_nothing : forall s c c' e, c' <> c -> conn (mstep s (MPeer c' e)) c = conn s c.
+Proof. exact multi_isolation. Qed.
+Print Assumptions C12_other_connection_changes_nothing.
